@@ -381,4 +381,50 @@ func runProgCases(cfg Config, res *Result, cases []ProgCase, sigPrefix string, n
 		}
 		res.add(Finding{Kind: "disagree", Proj: proj, Sig: sigPrefix + "-" + proj, Case: c.String(), Impl: ic + " " + io.Msg, Model: model[i]})
 	}
+	runProgCasesAutoOff(cfg, res, cases, reqs, sigPrefix)
+}
+
+// runProgCasesAutoOff runs a fourth of the cases once more under the other package default,
+// pongo2.SetAutoescape(false), against the model told so (driver command `runa`): the default a
+// root execution and every include start with is a parameter of the model (SetCfg.autoescape).
+// The suites' oracles speak of the default configuration and are not consulted here; nothing else
+// executes templates in this process meanwhile (the switch is a package variable).
+func runProgCasesAutoOff(cfg Config, res *Result, cases []ProgCase, reqs []string, sigPrefix string) {
+	var sub []int
+	for i, c := range cases {
+		if i%4 == 1 && (progSkipModel == nil || !progSkipModel(c)) {
+			sub = append(sub, i)
+		}
+	}
+	if len(sub) == 0 {
+		return
+	}
+	impl := make([]ImplOutcome, len(sub))
+	pongo2.SetAutoescape(false)
+	parMap(len(sub), func(k int) { impl[k] = cases[sub[k]].RunImpl() })
+	pongo2.SetAutoescape(true)
+	off := make([]string, len(sub))
+	for k, i := range sub {
+		off[k] = "runa" + strings.TrimPrefix(reqs[i], "run")
+	}
+	model, err := runDriver(cfg.Driver, off)
+	if err != nil {
+		res.add(Finding{Kind: "disagree", Proj: "driver", Sig: "driver-failed", Model: err.Error()})
+		return
+	}
+	res.Cases += len(sub)
+	for k, i := range sub {
+		m := modelCanon(model[k])
+		if m == "unsupported" {
+			continue
+		}
+		res.hist("autoescape-off:" + impl[k].Class)
+		if ic := impl[k].Canon(); ic != m {
+			proj := "output"
+			if strings.Fields(ic)[0] != strings.Fields(m)[0] || (strings.HasPrefix(ic, "err") && ic != m) {
+				proj = "class"
+			}
+			res.add(Finding{Kind: "disagree", Proj: proj, Sig: sigPrefix + "-autoescape-off-" + proj, Case: cases[i].String() + " after SetAutoescape(false)", Impl: ic + " " + impl[k].Msg, Model: model[k]})
+		}
+	}
 }
